@@ -364,7 +364,7 @@ where
         }
     }
     program(6);
-    tp!("kind", "op"); tp!("entry", "blind_sign"); tp!("suite", crate::h::c08::suite_tag::<CS>()); tp!("pk", 5); tp!("commitment", &buf[..]); tp!("msgs", &[1u8; L][..]);
+    tp!("kind", "op"); tp!("entry", "blind_sign"); tp!("suite", crate::h::c08::suite_tag::<CS>()); tp!("pk", 5); tp!("commitment", &buf[..]); tp!("msgs", &[1u8; L][..]); tp!("expect_err", true);
     let r = BlindSignature::<BBSplus<CS>>::blind_sign(&sk, &pk, Some(&buf[..]), None, Some(&msgs));
     oracle().on = false;
     kani::cover!(r.is_err(), "refused");
